@@ -151,11 +151,21 @@ fn gen_input_doc(rng: &mut Rng) -> String {
         0 => (*rng.pick(&["{\"a\":", "[1,2", "nope", "{'a':1}", "{\"a\":1}}", "{\"a\" 1}"])).to_string(),
         1 | 2 | 3 => {
             // non-object
-            let v = match rng.below(4) {
+            let v = match rng.below(8) {
                 0 => JV::Num(rng.range(0, 99) as f64),
                 1 => JV::Str("s".into()),
                 2 => JV::List(vec![JV::Num(1.0), JV::Num(2.0)]),
-                _ => JV::Null,
+                3 => JV::Null,
+                4 => JV::Bool(rng.chance(1, 2)),
+                // a string whose content looks like a document of its own: still one string
+                5 => JV::Str((*rng.pick(&["{}", "[1, 2]", "{\"a\":1}", " {\"k\": 2} ", "[]", "null", "5", "\"x\"", "true", "{\"value_1\": 9}", "1e3"])).to_string()),
+                // any value that is not an object at the top: scalars, strings, (nested) lists
+                _ => loop {
+                    let v = gen_jv(rng, 0);
+                    if !matches!(v, JV::Rec(_)) {
+                        break v;
+                    }
+                },
             };
             render_doc(rng, &v)
         }
@@ -687,7 +697,7 @@ pub fn judge(sc: &Scenario, rr: &RunResult) -> Judged {
     let uses_file = !matches!(sc.out, OutDest::Stdout);
     let stale = match &sc.out {
         OutDest::FileStale(s) => Some(s.clone().into_bytes()),
-        OutDest::FileIsScript if sc.mode == Mode::File => Some(styled_source(sc).into_bytes()),
+        OutDest::FileIsScript if sc.mode == Mode::File => Some(with_bad_byte(styled_source(sc).into_bytes(), sc.script_bad_byte)),
         OutDest::FileIsStdin if sc.mode != Mode::EvalStdin => match stdin_as_given(sc) {
             StdinKind::File(b) => Some(b),
             _ => None,
